@@ -74,6 +74,11 @@ POSITIONS = [
     "merge-value-in-lazy-tag-mapping-in-pipeline",
     "merge-value-in-eager-tag-mapping-in-section",
     "merge-value-in-type-mapping",
+    "second-merge-value-in-section",
+    # a value that a later pair with the same key replaces
+    "duplicate-key-replaced-in-section",
+    "duplicate-key-replaced-in-lazy-tag-mapping-in-pipeline",
+    "merged-key-overridden-in-section",
     # parts of the file that a loader may be tempted not to look at: a further document of
     # the stream, top-level entries that do not look like sections
     "second-document",
@@ -95,7 +100,7 @@ def shapes_for(position):
     by YAML itself, also with registered tags"""
     if position == "merge-list-in-section":
         return ["seq"]
-    if position.startswith("merge-"):
+    if position.startswith("merge-") or position == "second-merge-value-in-section":
         return ["map"]
     return SHAPES
 #: second tags of the two-tag documents (thorough): one per kind, aimed at the canaries
@@ -276,6 +281,17 @@ def build_document(position, node):
                 "top-level-dot-section": ".hidden",
                 "top-level-null-key-section": "~"}[position]
         extra_top.append((yt.scalar(name), yt.mapping([("a", node)])))
+    elif position == "second-merge-value-in-section":
+        section = yt.mapping([("a", yt.mapping([
+            ("<<", yt.mapping([("p", yt.py(1))])), ("k", yt.py(1)), ("<<", node)]))])
+    elif position == "duplicate-key-replaced-in-section":
+        section = yt.mapping([("a", yt.mapping([("k", node), ("j", yt.py(1)),
+                                               ("k", yt.py(2))]))])
+    elif position == "duplicate-key-replaced-in-lazy-tag-mapping-in-pipeline":
+        pipeline = [yt.mapping([("k", node), ("k", yt.py(2))], tag="!VDeco1L"), pool]
+    elif position == "merged-key-overridden-in-section":
+        section = yt.mapping([("a", yt.mapping([
+            ("<<", yt.mapping([("k", node)])), ("k", yt.py(2))]))])
     elif position.startswith("merge-"):
         plain = yt.mapping([("p", yt.py(1))])
         if position == "merge-list-item-in-section":
